@@ -429,11 +429,54 @@ func checkObs(s spec, o *hsObs, serverKey crypto.PrivateKey) *obsResult {
 		if err := json.Unmarshal(jb, &j); err != nil {
 			k.fail("json:invalid-output", "log JSON does not parse: %v", err)
 		}
-		var back ztls.ServerHandshake
-		if err := json.Unmarshal(jb, &back); err != nil {
-			k.count("json_roundtrip_decode_error")
-		} else {
-			k.count("json_roundtrip_ok")
+		// decode again (certificates excluded: zcrypto refuses to decode certificate JSON by design) and compare
+		// the scalar enums; disagreements are evidence only, the statement does not speak about decoding
+		if m, ok := j.(map[string]any); ok {
+			cp := map[string]any{}
+			for kk, v := range m {
+				if kk != "server_certificates" {
+					cp[kk] = v
+				}
+			}
+			b2, _ := json.Marshal(cp)
+			var back ztls.ServerHandshake
+			var err error
+			func() {
+				// decoding an X25519 point panics at the pinned commit (C33's finding, not asserted here)
+				defer func() {
+					if r := recover(); r != nil {
+						err = fmt.Errorf("panic: %v", r)
+						k.count("json_roundtrip_decode_panic")
+					}
+				}()
+				err = json.Unmarshal(b2, &back)
+			}()
+			if err != nil {
+				k.count("json_roundtrip_decode_error")
+				e := err.Error()
+				if len(e) > 90 {
+					e = e[:90]
+				}
+				res.Summary["json_decode_error"] = e
+			} else {
+				k.count("json_roundtrip_ok")
+				if a, b := o.Log.ClientHello, back.ClientHello; a != nil && b != nil {
+					if a.Version != b.Version || fmt.Sprint(a.CipherSuites) != fmt.Sprint(b.CipherSuites) || fmt.Sprint(a.SupportedCurves) != fmt.Sprint(b.SupportedCurves) ||
+						fmt.Sprint(a.SignatureAndHashes) != fmt.Sprint(b.SignatureAndHashes) || fmt.Sprint(a.CompressionMethods) != fmt.Sprint(b.CompressionMethods) {
+						k.count("json_roundtrip_enum_mismatch:client_hello")
+					}
+				}
+				if a, b := o.Log.ServerHello, back.ServerHello; a != nil && b != nil {
+					if a.Version != b.Version || a.CipherSuite != b.CipherSuite || a.CompressionMethod != b.CompressionMethod {
+						k.count("json_roundtrip_enum_mismatch:server_hello")
+					}
+				}
+				if a, b := o.Log.ServerKeyExchange, back.ServerKeyExchange; a != nil && b != nil && a.Signature != nil && b.Signature != nil {
+					if a.Signature.Version != b.Signature.Version || (a.Signature.SigHashExtension != nil && (b.Signature.SigHashExtension == nil || *a.Signature.SigHashExtension != *b.Signature.SigHashExtension)) {
+						k.count("json_roundtrip_enum_mismatch:server_key_exchange.signature")
+					}
+				}
+			}
 		}
 	}
 
